@@ -12,6 +12,8 @@ CONSTANTS
  HelpKinds = {}
  MaxPub = 0
  MaxSched = 0
+ MaxReg = 0
+ Retries = 13
  Ext = {}
  MaxPad = 0
  SymFirst = FALSE
